@@ -1,7 +1,8 @@
 /-
 The evaluator: `src/interpreter/interpreter.rs` — `eval_expression`, `eval_procedure_call`,
 `apply_procedure` (the trampoline loop), `apply_scheme_procedure`, `eval_tail_expression`,
-`read_literal`, `eval_primitive`, and the native `apply`.
+`read_literal`, `eval_primitive`, and `spread_apply_arguments` (the native `apply`, which the
+trampoline unpacks).
 
 All functions take fuel (`.error (.fuel, _)` when it runs out — not an outcome of the real code)
 and return the store together with the outcome, errors included: effects completed before an
@@ -101,6 +102,21 @@ def bindFixed (σ : Store) (ρ : Nat) : List String → List Value → Except Er
   | _ :: _, [] => (.error (.panic "apply_scheme_procedure: arg_iter.next().unwrap()"), σ)
   | f :: fs, a :: as => bindFixed (σ.define ρ f a) ρ fs as
 
+/-- `spread_apply_arguments`: the procedure and the argument list an `apply` call stands for -/
+def spreadApply (args : List Value) : Except Err (Value × List Value) :=
+  match args with
+  | [] => .error (.panic "spread_apply_arguments: unwrap")
+  | f :: rest =>
+    match procArity f with
+    | none => .error .nonProcedure
+    | some _ =>
+      match rest.getLast? with
+      | none => .ok (f, [])
+      | some last =>
+        match last with
+        | .pair _ _ | .nil => .ok (f, rest.dropLast ++ last.elems)
+        | _ => .error .type
+
 def enter (σ : Store) : Store :=
   let d := σ.depth + 1
   { σ with depth := d, maxDepth := max σ.maxDepth d }
@@ -129,7 +145,11 @@ def evalExpr : Nat → Store → Nat → Expr → Res Value
           match rargs with
           | .error er => (.error er, σ)
           | .ok vs => applyProcedure fuel σ first vs ρ
-        | none => (.error (.nonProcedure, f.loc), σ)
+        | none =>
+          -- (running out of fuel among the operands is not an outcome of the real code)
+          match rargs with
+          | .error (.fuel, l) => (.error (.fuel, l), σ)
+          | _ => (.error (.nonProcedure, f.loc), σ)
     | .assign name ve _ =>
       match evalExpr fuel σ ρ ve with
       | (.error er, σ) => (.error er, σ)
@@ -180,7 +200,12 @@ def applyLoop : Nat → Store → Value → List Value → Nat → Res Value
     | some (fixed, variadic) =>
       if !arityOk fixed variadic args.length then (.error (.arity, none), σ) else
       match p with
-      | .builtin b => applyBuiltin fuel σ b args env
+      | .builtin .apply =>
+        -- `(apply proc arg … args)`: the loop continues with `proc` and the spread arguments
+        match spreadApply args with
+        | .error er => (.error (er, none), σ)
+        | .ok (f, args') => applyLoop fuel σ f args' env
+      | .builtin b => applyPure σ b args
       | .closure lam cenv =>
         match applyScheme fuel σ lam cenv args with
         | (.error er, σ) => (.error er, σ)
@@ -252,26 +277,6 @@ def evalTail : Nat → Store → Nat → Expr → Res TailRes
       | (.error er, σ) => (.error er, σ)
       | (.ok v, σ) => (.ok (.value v), σ)
 
-/-- a native procedure; only `apply` re-enters the evaluator (through a *new* `apply_procedure`
-activation: tail calls through `apply` nest) -/
-def applyBuiltin : Nat → Store → Builtin → List Value → Nat → Res Value
-  | 0, σ, _, _, _ => (.error (.fuel, none), σ)
-  | fuel + 1, σ, b, args, env =>
-    match b with
-    | .apply =>
-      match args with
-      | [] => (.error (.panic "base.rs unwrap: apply", none), σ)
-      | f :: rest =>
-        match procArity f with
-        | none => (.error (.nonProcedure, none), σ)
-        | some _ =>
-          match rest.getLast? with
-          | none => applyProcedure fuel σ f [] env
-          | some last =>
-            match last with
-            | .pair _ _ | .nil => applyProcedure fuel σ f (rest.dropLast ++ last.elems) env
-            | _ => (.error (.type, none), σ)
-    | _ => applyPure σ b args
 end
 
 end Ruschm.Eval
